@@ -166,8 +166,9 @@ def cmd_check(prop, tier, seed):
     extra = dict(
         known_findings_reported=sorted(s for s in reported if core.known_entry(s, known)),
         build_configs=sorted(set(t['config'] for t in totals)),
-        determinism='every reported violation passed two gates: same plan executed twice more with identical transcript '
-                    'hashes, and fresh-process replay from the written file',
+        determinism='every reported violation passed two gates: the same violation signature recurs when the plan is executed '
+                    'twice more, each time in a new executor process, and again when the minimised plan file is replayed in a '
+                    'fresh process; a finding that does not pass is printed as UNCONFIRMED and never as a violation',
     )
     core.write_evidence(prop, tier, seed, spec['level'], totals, wall, nviol, spec['rule'], extra=extra,
                         assumptions=spec.get('assumptions', [
